@@ -854,7 +854,7 @@ func (la *lockAnalysis) origins(fn *ssa.Function) (map[ssa.Value]*origin, map[ss
 					}
 				}
 			case *ssa.Call:
-				if g := x.Call.StaticCallee(); g != nil && la.retRes[g] != nil && la.residentSpecOf(x.Type()) != nil {
+				if g := x.Call.StaticCallee(); g != nil && la.retRes[g] != nil {
 					if merge(x, &origin{table: true, spec: la.retRes[g]}, org) {
 						changed = true
 					}
